@@ -67,7 +67,7 @@ def run(rep, tier, seed, pa):
     labels = ["A", "B", "C"]
     for ci in range(ncases):
         n, k = shapes[ci % len(shapes)]
-        pattern = rng.choice(["perturbed", "random", "disjoint", "intgrid", "staircase", "staircase"])
+        pattern = rng.choice(["perturbed", "random", "disjoint", "intgrid", "staircase", "staircase", "longshort", "longshort"])
         sizes = [rng.randrange(max(1, k - 3), k + 1) for _ in range(n)]
         kind = rng.choice(["pos", "abs", "abs", "pre", "ord"])
         # continua mixing labelled and unlabelled units (only where the dissimilarity has no category table): an unlabelled unit must not
